@@ -112,4 +112,73 @@ func ZZC06Enum() {
 	v.Reach("C06/enum")
 }
 
-var ZZHarnesses = map[string]func(){"ZZC06Enum": ZZC06Enum, "ZZEnumAuto": ZZEnumAuto}
+// zzStrItem: a string item of up to max pieces (a printable byte, blanks included, an escaped blank,
+// \u0020 / \u0061) with its decoded value.
+func zzStrItem(max int) (lit, dec []byte) {
+	lit = []byte{'"'}
+	n := v.Choose(0, max)
+	for i := 0; i < n; i++ {
+		switch v.Choose(0, 3) {
+		case 0:
+			c := v.Byte()
+			v.Assume(c >= 0x20 && c < 0x7f && c != '"' && c != '\\')
+			lit, dec = append(lit, c), append(dec, c)
+		case 1:
+			c := v.Byte()
+			v.Assume(c == 't' || c == 'n' || c == 'r')
+			lit = append(lit, '\\', c)
+			dec = append(dec, map[byte]byte{'t': '\t', 'n': '\n', 'r': '\r'}[c])
+		case 2:
+			lit, dec = append(lit, "\\u0020"...), append(dec, ' ')
+		default:
+			lit, dec = append(lit, "\\u0061"...), append(dec, 'a')
+		}
+	}
+	return append(lit, '"'), dec
+}
+
+// ZZC06EnumStrings: two string items whose values differ (be it only in blanks at either end of the
+// content) are not duplicates: the enum scanner reads the whole array like the JSON scanner; two
+// spellings of one value are duplicates and end the scan with an error.
+func ZZC06EnumStrings() {
+	l1, d1 := zzStrItem(v.Param("pieces", 2))
+	l2, d2 := zzStrItem(v.Param("pieces", 2))
+	same := len(d1) == len(d2)
+	for i := 0; same && i < len(d1); i++ {
+		same = d1[i] == d2[i]
+	}
+	text := append(append(append([]byte{'['}, l1...), ','), l2...)
+	text = append(text, ']')
+	v.Observe("text", text)
+	sc := newScanner(fs.NewFile("e", text))
+	n := 0
+	var serr error
+	for i := 0; i < 16; i++ {
+		lex, err := sc.Next()
+		if err != nil {
+			serr = err
+			break
+		}
+		if lex.Type() != lexeme.NewLine {
+			n++
+		}
+	}
+	if same {
+		v.Reach("C06/enum-duplicate-strings")
+		v.Assert(!stdErrors.Is(serr, errEOS), "C06/enum-duplicate-value-accepted")
+		return
+	}
+	v.Reach("C06/enum-distinct-strings")
+	v.Assert(stdErrors.Is(serr, errEOS), "C06/enum-scanner-rejects-plain-json-array")
+	want := 0
+	doc := json.New("d", text)
+	for i := 0; i < 16; i++ {
+		if _, err := doc.NextLexeme(); err != nil {
+			break
+		}
+		want++
+	}
+	v.Assert(n == want, "C06/enum-event-count")
+}
+
+var ZZHarnesses = map[string]func(){"ZZC06Enum": ZZC06Enum, "ZZEnumAuto": ZZEnumAuto, "ZZC06EnumStrings": ZZC06EnumStrings}
